@@ -7,7 +7,7 @@
 From Coq Require Import ZArith List Reals.
 From Coquelicot Require Import Coquelicot.
 From PM Require Import Base.Num Base.RNum Base.Cplx Base.CplxR Gen.Extracted Model.Solve Model.Loads
-     Proofs.CxAlg Proofs.Linear Proofs.Loads Proofs.Circuit Proofs.Distributed.
+     Proofs.CxAlg Proofs.Linear Proofs.Loads Proofs.Circuit Proofs.Distributed Model.Attach Proofs.AttachP.
 Import ListNotations.
 
 (* a lumped load z on the feed pulse raises the feed impedance by exactly z —
@@ -117,3 +117,32 @@ Theorem C08_distributed_length_insulation :
     ins_pulse omg h0 h1 = (0%R, (zins * omg * (real_len h0 + real_len h1))%R).
 Proof. exact ins_pulse_proof. Qed.
 Print Assumptions C08_distributed_length_insulation.
+
+(* WHICH pulses carry a distributed load (Model/Attach.v: the load of an object is attached to the pulses the object owns,
+   fix_distributed_loads adds the junction pulses of which exactly one half lies on a loaded object; tie: stage `attach`).
+   For every pulse owned by one of the objects its halves lie on -- all pulses the topology builds -- and every set of
+   loaded objects: the pulse is on exactly one load list as soon as one of its halves lies on a loaded object, on none
+   otherwise ... *)
+Theorem C08_distributed_attached_once :
+  forall (loaded : nat -> bool) (objs : list nat) (p : apulse),
+    NoDup objs -> In (ap_g0 p) objs -> In (ap_g1 p) objs -> (ap_owner p = ap_g0 p \/ ap_owner p = ap_g1 p) ->
+    length (filter (attached loaded p) objs) = if (loaded (ap_g0 p) || loaded (ap_g1 p))%bool then 1%nat else 0%nat.
+Proof. exact attached_once. Qed.
+Print Assumptions C08_distributed_attached_once.
+
+(* ... hence every half-segment of loaded conductor a pulse represents is charged exactly once, every other half never *)
+Theorem C08_distributed_half_charged_once :
+  forall (loaded : nat -> bool) (objs : list nat) (p : apulse) (h : bool),
+    NoDup objs -> In (ap_g0 p) objs -> In (ap_g1 p) objs -> (ap_owner p = ap_g0 p \/ ap_owner p = ap_g1 p) ->
+    charged loaded objs p h = if loaded (if h then ap_g1 p else ap_g0 p) then 1%nat else 0%nat.
+Proof. exact half_charged_once. Qed.
+Print Assumptions C08_distributed_half_charged_once.
+
+(* the one-sided rule (only the second half is looked at) loses the junction pulse of a bare wire whose first half lies
+   on the loaded wire *)
+Theorem C08_one_sided_rule_refuted :
+  let loaded := fun g => Nat.eqb g 0 in
+  let p := mkAP 1 0 1 in
+  length (filter (attached_second_only loaded p) [0; 1]%nat) = 0%nat /\ length (filter (attached loaded p) [0; 1]%nat) = 1%nat.
+Proof. exact second_only_refuted. Qed.
+Print Assumptions C08_one_sided_rule_refuted.
